@@ -30,7 +30,10 @@ class C12Combine(Scenario):
                     # every structure gets its own function object computing the run's hash strategy (a factory that
                     # builds the strategy per filter); operands may be trivial user subclasses; a mismatched pair with
                     # strategy objects of its own lives and dies before the run's structures are built
-                    "own_closures": rng.chance(1, 3), "subclass": rng.chance(1, 8), "recycle": rng.chance(1, 4)})
+                    "own_closures": rng.chance(1, 3), "subclass": rng.chance(1, 8), "recycle": rng.chance(1, 4),
+                    # how operand b comes to its geometry: the same arguments as a / (sketches) explicit width and depth
+                    # where a was sized by confidence and error rate / loaded from the export of a fresh twin
+                    "b_via": rng.weighted([(3, "same"), (1, "width_depth"), (1, "loaded")])})
         return cfg
 
     def gen_step(self, rng):
@@ -83,6 +86,19 @@ class C12Combine(Scenario):
             return o
         return self.klass("BloomFilter")(cfg["est"], cfg["rate"], hash_function=hf)
 
+    def other_way(self, fresh, how):
+        """an operand equal to the fresh structure `fresh`, obtained another way"""
+        hf = fresh.hash_function if hasattr(fresh, "hash_function") else self.env.hf
+        C = type(fresh)
+        if how == "loaded":
+            self.ctx.fault("operand_loaded_from_export")
+            return C.frombytes(bytes(fresh), hash_function=self.env.fresh_hf() if self.cfg.get("own_closures") else self.env.hf)
+        if self.cfg["kind"] == "cms" and "width" not in self.cfg["sizing"]:
+            self.ctx.fault("operand_sized_by_width_depth")
+            return C(width=fresh.width, depth=fresh.depth,
+                     hash_function=self.env.fresh_hf() if self.cfg.get("own_closures") else self.env.hf)
+        return fresh
+
     def prior_life(self, h1, h2):
         """two structures of this geometry with two DIFFERENT strategies: their union is refused (Bloom kinds)."""
         d1, d2 = self.make(False, h1), self.make(False, h2)
@@ -104,6 +120,8 @@ class C12Combine(Scenario):
             self.ctx.fault("per_object_hash_closure")
         self.a = self.make(cfg["a_disk"])
         self.b = self.make(cfg["b_disk"])
+        if cfg.get("b_via", "same") != "same" and not cfg["b_disk"]:
+            self.b = self.other_way(self.b, cfg["b_via"])
         self.c = self.make(False)
         self.out = {"a": {}, "b": {}}
         self.overdrawn = False
@@ -170,7 +188,7 @@ class C12Combine(Scenario):
             ctx.fault("counter_set")
             return {"r": "ok"}
         if op == "combine":
-            return self.combine(step["order"], step.get("via_empty", False))
+            return self.combine(step["order"], step.get("via_empty", False), step.get("alt") in ("kw", "altkw"))
         raise HarnessError(op)
 
     def finish(self):
@@ -182,7 +200,7 @@ class C12Combine(Scenario):
                 raise Violation("operand_aliased", f"{what}: using the result afterwards changed the {name} "
                                                    f"({type(o).__name__})", sig)
 
-    def combine(self, order, via_empty=False):
+    def combine(self, order, via_empty=False, kw=False):
         ctx = self.ctx
         kind = self.cfg["kind"]
         x, y = (self.a, self.b) if order == "ab" else (self.b, self.a)
@@ -194,12 +212,12 @@ class C12Combine(Scenario):
             if via_empty:
                 # a fresh sketch takes both operands by join
                 res = self.make(False)
-                res.join(x)
-                res.join(y)
+                structs.set_op(res, "join", x, kw)
+                structs.set_op(res, "join", y, kw)
                 ctx.fault("join_into_fresh")
             else:
                 res = copy.deepcopy(x)
-                res.join(y)
+                structs.set_op(res, "join", y, kw)
             got, total = self.array_of(res)
             if got != want:
                 raise Violation("join_counters_differ", "counters of a.join(b) differ from the single-stream sketch", sig)
@@ -213,7 +231,7 @@ class C12Combine(Scenario):
                     if est < true:
                         raise Violation("join_underestimates", f"key {k}: sum of true counts {true}, joined estimate {est}", sig)
         else:
-            res = x.union(y)
+            res = structs.set_op(x, "union", y, kw)
             if res is None:
                 raise Violation("union_refused", "union of same-geometry, same-hash filters returned None", sig)
             got, _ = self.array_of(res)
